@@ -118,6 +118,19 @@ def facts(repo):
     fn = _func(t, "multistage_regular_rechunking_plan", RCH)
     fixes = [n for n in ast.walk(fn) if isinstance(n, ast.Assign) and isinstance(n.value, ast.Call)
              and _src(n.value.func) == "_fix_copy_chunks"]
+    if len(fixes) != 1 or len(fixes[0].value.args) != 3:
+        raise ExtractError(f"{RCH}:multistage_regular_rechunking_plan: expected exactly one _fix_copy_chunks(shape, read, target) call")
+    loop, _ = _loop_range(fn, RCH)
+    in_loop = any(n is fixes[0] for n in loop.body)
+    stage_assign = [i for i, n in enumerate(loop.body) if isinstance(n, ast.Assign) and _src(n.targets[0]) == "stage_chunks"]
+    pre_assign = [i for i, n in enumerate(loop.body) if isinstance(n, ast.Assign) and _src(n.targets[0]) == "pre_chunks"]
+    fix_pos = [i for i, n in enumerate(loop.body) if n is fixes[0]]
+    ordered = bool(in_loop and stage_assign and pre_assign and fix_pos and stage_assign[0] < fix_pos[0] < pre_assign[0])
+    put("regFixTarget", "String", lean_str(_src(fixes[0].value.args[2])), f"{RCH}:multistage_regular_rechunking_plan")
+    put("regFixArgs", "String", lean_str(" , ".join(_src(a) for a in fixes[0].value.args[:2])), f"{RCH}:multistage_regular_rechunking_plan")
+    put("regFixInLoopBetweenStageAndPre", "Bool", "true" if ordered else "false", f"{RCH}:multistage_regular_rechunking_plan")
+    put("regPreChunks", "String", lean_str(_src(_assign_value(fn, "pre_chunks", RCH))), f"{RCH}:multistage_regular_rechunking_plan")
+    put("regPostChunks", "String", lean_str(_src(_assign_value(fn, "post_chunks", RCH))), f"{RCH}:multistage_regular_rechunking_plan")
     put("regFixCall", "String", lean_str(" ; ".join(_src(n).replace("\n", " ") for n in fixes)), f"{RCH}:multistage_regular_rechunking_plan")
 
     fn = _func(t, "_fix_copy_chunks", RCH)
